@@ -88,6 +88,39 @@ pub fn run(path: &str) -> i32 {
             }
             return 0;
         }
+        "identifier-order" => {
+            if let (Some(y), Some(sw)) = (rule_yaml, sw) {
+                println!("--- rule ---\n{}", y);
+                if let Ok(rule) = eng::load(y) {
+                    for key in ["order_a", "order_b"] {
+                        let p: Vec<usize> = j.get(key).and_then(|c| c.as_array()).map(|a| a.iter().filter_map(|x| x.as_u64()).map(|x| x as usize).collect()).unwrap_or_default();
+                        match eng::with_identifier_order(&rule, &p).and_then(|r| eng::optimise_with(&r, sw, &[]).ok()) {
+                            Some((o, _)) => {
+                                println!("identifiers iterating as {:?}: optimise({}) = {}", p, eng::sw_name(sw), eng::canon(&o));
+                                if let Some(d) = &doc {
+                                    println!("    on {}: {}", d.show(), show3(eng::val3(&o, d)));
+                                }
+                            }
+                            None => println!("order {:?} could not be realised / optimise panicked", p),
+                        }
+                    }
+                }
+            }
+            return 0;
+        }
+        "validate-history" => {
+            let ops: Vec<u8> = j.get("ops").and_then(|c| c.as_array()).map(|a| a.iter().filter_map(|x| x.as_u64()).map(|x| x as u8).collect()).unwrap_or_default();
+            let names: Vec<&str> = ops.iter().map(|o| crate::c13::HIST_OPS[*o as usize]).collect();
+            println!("operations on one rule value: {:?}", names);
+            if let (Some(y), Some(p), Some(n)) = (rule_yaml, doc_of(&j, "positive"), doc_of(&j, "negative")) {
+                println!("--- rule ---\n{}", y);
+                match crate::c13::run_history(y, &p, &n, &ops) {
+                    Some((real, fresh)) => println!("validate() on the edited value : {}\nvalidate() on a fresh rule      : {}", real, fresh),
+                    None => println!("base rule does not load"),
+                }
+            }
+            return 0;
+        }
         "condition" => {
             let c = j.get("condition").and_then(|p| p.as_str()).unwrap_or("");
             println!("condition {:?} (load through the rule text below when present)", c);
